@@ -5,20 +5,27 @@
  * point janet_await: the fiber may suspend only if none of its clauses has completed. */
 #include "prelude.h"
 JanetChannel g_chs[2]; int g_completed, g_registered, g_results, g_nclauses;
-int push_stub(JanetChannel *ch, Janet x, int mode) { __CPROVER_assert(mode == 1, "select gives in choice mode"); if (nd_int() & 1) { g_completed++; return 0; } g_registered++; return 1; }
-int pop_stub(JanetChannel *ch, Janet *item, int is_choice) { __CPROVER_assert(is_choice == 1, "select takes in choice mode"); if (nd_int() & 1) { g_completed++; return 1; } g_registered++; return 0; }
+/* number of queued items as the ring indices say (janet_q_count, proved in unit q.count) */
+static int32_t true_count(JanetChannel *ch) { return ch->items.head <= ch->items.tail ? ch->items.tail - ch->items.head : ch->items.capacity - ch->items.head + ch->items.tail; }
+/* contract of give (unit chan.give): completes at once iff a live taker is waiting or the queue has room, else the giver is registered */
+int push_stub(JanetChannel *ch, Janet x, int mode) { __CPROVER_assert(mode == 1, "select gives in choice mode"); if ((nd_int() & 1) || true_count(ch) < ch->limit) { g_completed++; return 0; } g_registered++; return 1; }
+/* contract of take (unit chan.take): completes at once iff an item is queued (or a giver is waiting), else the taker is registered */
+int pop_stub(JanetChannel *ch, Janet *item, int is_choice) { __CPROVER_assert(is_choice == 1, "select takes in choice mode"); if ((nd_int() & 1) || ch->items.head != ch->items.tail) { g_completed++; return 1; } g_registered++; return 0; }
 void await_stub(void) { __CPROVER_assert(g_completed == 0, "C06 select: the fiber suspends only if none of its clauses completed (a clause matched by an already waiting partner yields its result at once)"); __CPROVER_assert(g_registered + g_completed == g_nclauses, "C06 select: before suspending the fiber has registered on EVERY clause"); REACH("select suspends"); __CPROVER_assume(0); }
-int32_t qcount_stub(JanetQueue *q) { int32_t n = nd_i32(); __CPROVER_assume(n >= 0); return n; }
+int32_t qcount_stub(JanetQueue *q) { return q->head <= q->tail ? q->tail - q->head : q->capacity - q->head + q->tail; }
 JanetChannel *getchannel_stub(const Janet *argv, int32_t n) { return &g_chs[nd_uint() & 1]; }
 Janet g_pair[2];
 int indexed_view_stub(Janet seq, const Janet **data, int32_t *len) { if (nd_int() & 1) { *data = g_pair; *len = 2; return 1; } return 0; }
 Janet result_stub1(JanetChannel *c) { g_results++; return janet_wrap_nil(); }
-Janet result_stub2(JanetChannel *c, Janet x) { g_results++; return janet_wrap_nil(); }
+Janet result_stub2(JanetChannel *c, Janet x) { g_results++; __CPROVER_assert(g_completed == 1 && g_registered == 0, "C06 select: [:take ch x] is returned at once only for a take that completed; nothing is left pending for the running fiber"); return janet_wrap_nil(); }
+Janet result_write_stub(JanetChannel *c) { g_results++; __CPROVER_assert(g_completed == 1 && g_registered == 0, "C06 select: [:give ch] is returned at once only for a give that completed (room in the queue or a waiting taker); nothing is left pending for the running fiber"); REACH("select gives at once"); return janet_wrap_nil(); }
 void arity_stub(int32_t argc, int32_t a, int32_t b) { __CPROVER_assume(argc >= a); }
 void unlock_args_stub(const Janet *argv, int32_t n) { }
 void h_select(void) {
   int32_t argc = nd_i32(); __CPROVER_assume(argc >= 1 && argc <= 2); Janet argv[2];
-  for (int k = 0; k < 2; k++) { g_chs[k].closed = nd_int() & 1; g_chs[k].limit = nd_i32(); g_chs[k].is_threaded = 0; g_chs[k].items.head = nd_i32(); g_chs[k].items.tail = nd_i32(); }
+  for (int k = 0; k < 2; k++) { g_chs[k].closed = nd_int() & 1; g_chs[k].limit = nd_i32(); g_chs[k].is_threaded = 0; g_chs[k].items.head = nd_i32(); g_chs[k].items.tail = nd_i32(); g_chs[k].items.capacity = nd_i32();
+    /* ring invariant of JanetQueue (unit q.push / q.pop) */
+    __CPROVER_assume(g_chs[k].items.capacity >= 0 && g_chs[k].items.head >= 0 && g_chs[k].items.tail >= 0 && (g_chs[k].items.capacity == 0 ? (g_chs[k].items.head == 0 && g_chs[k].items.tail == 0) : (g_chs[k].items.head < g_chs[k].items.capacity && g_chs[k].items.tail < g_chs[k].items.capacity))); }
   janet_vm.coerce_error = 0; g_completed = g_registered = g_results = 0; g_nclauses = argc;
   cfun_channel_choice(argc, argv);
   __CPROVER_assert(g_results == 1 && g_completed <= 1, "C06 select: an immediate result is exactly one clause result for at most one completed operation");
